@@ -6,6 +6,7 @@ import (
 	"encoding/binary"
 	"encoding/json"
 	"net/http"
+	"time"
 
 	bolt "go.etcd.io/bbolt"
 )
@@ -88,3 +89,22 @@ func VerifSubState(s *LocalSubscriber) (disconnected, ready bool, liveQueue []st
 
 // VerifBoltLastSeq exposes the in-memory lastSeq field.
 func VerifBoltLastSeq(t *BoltTransport) uint64 { return t.lastSeq }
+
+// VerifOptions exposes the effective options of a hub.
+type VerifOptions struct {
+	Anonymous, Subscriptions, HasPublisherKey, HasSubscriberKey bool
+	WriteTimeout, DispatchTimeout, Heartbeat                    time.Duration
+	PublishOrigins, CORSOrigins                                 []string
+	CookieName                                                  string
+	Compat7                                                     bool
+}
+
+func VerifHubOptions(h *Hub) VerifOptions {
+	return VerifOptions{
+		Anonymous: h.anonymous, Subscriptions: h.subscriptions,
+		HasPublisherKey: h.publisherJWTKeyFunc != nil, HasSubscriberKey: h.subscriberJWTKeyFunc != nil,
+		WriteTimeout: h.writeTimeout, DispatchTimeout: h.dispatchTimeout, Heartbeat: h.heartbeat,
+		PublishOrigins: h.publishOrigins, CORSOrigins: h.corsOrigins, CookieName: h.cookieName,
+		Compat7: h.isBackwardCompatiblyEnabledWith(7),
+	}
+}
